@@ -43,10 +43,13 @@ PA_JOBS = 8
 # which GenEquiv files belong to a property.  Default: <pid>_gen.v when it exists.
 PID_FILES = {
     'C01': ['C01_gen.v'], 'C02': ['C02_gen.v'], 'C03': ['C03_gen.v'], 'C06': ['C06_gen.v'], 'C07': ['C07_gen.v'],
-    'C13': ['C13_gen.v'], 'C14': ['C14_gen.v'], 'C18': ['C18_gen.v'],
-    'C05': ['C03_gen.v'],          # C05 rests on the same round state machine (NextState)
-    'C09': ['C13_gen.v'],          # C09 / C04 rest on PluginState.Next
-    'C04': ['C01_gen.v', 'C02_gen.v', 'C03_gen.v'],   # C04 composes the C01 / C02 / C03 models
+    'C08': ['C08_gen.v'], 'C13': ['C13_gen.v'], 'C14': ['C14_gen.v'], 'C15': ['C15_gen.v'], 'C16': ['C16_gen.v'],
+    'C18': ['C18_gen.v'],
+    'C04': ['C01_gen.v', 'C02_gen.v', 'C03_gen.v'],   # C04 composes C01 (thresholds, chain validators), C02 (msgsCoverRange / computeMerkleRoot / Limit), C03 (NextState)
+    'C05': ['C03_gen.v'],                # C05 rests on the same round state machine (NextState)
+    'C10': ['C16_gen.v'],                # C10 rests on the transmission schedule
+    'C17': [],
+    'C09': ['C09_gen.v', 'C13_gen.v'],   # computeRanges; PluginState.Next
 }
 
 
@@ -310,10 +313,18 @@ def run(repo, pid, workdir=None):
             return done()
         # (iii) the property's theorems
         text = ''
-        for f in res['files']:
+
+        def one_file(f):
             with open(os.path.join(workdir, '.%s.lock' % f), 'w') as flk:
                 fcntl.flock(flk, fcntl.LOCK_EX)
-                v, failed = check_file(gen, f, log)
+                flog = []
+                v, failed = check_file(gen, f, flog)
+                return f, v, failed, flog
+
+        with concurrent.futures.ThreadPoolExecutor(max_workers=4) as ex:
+            results = list(ex.map(one_file, res['files']))
+        for f, v, failed, flog in results:
+            log.extend(flog)
             res['theorems'].update(v)
             res['failed_theorems'] += [n for n in failed if n not in res['failed_theorems']]
             text += open(os.path.join(GENEQUIV, f)).read()
